@@ -344,7 +344,7 @@ def judge(s: Any, fmt: str, combo: Sequence[str], fields: Sequence[str], res: Di
         if fmt in NAP_FIELDS and fld in BODY_FIELDS_NAP:
             continue
         heading, arg = FIELD_HOME[fld]
-        rows = [r for hd, rows_ in sections if hd == heading for r in rows_]
+        rows = [r for hd, rows_ in sections if hd in (heading, heading + 's') for r in rows_]      # 'Note' / 'Notes', 'Author' / 'Authors'
         if arg:
             rows = [r for r in rows if re.sub(r'[:\s].*', '', r[0].strip()) == arg or r[0].strip().startswith(arg)]
         rowtext = ' '.join(a + ' ' + d for a, d in rows)
@@ -354,6 +354,8 @@ def judge(s: Any, fmt: str, combo: Sequence[str], fields: Sequence[str], res: Di
             warned = any(fld.split('-')[0] in m or 'field' in m.lower() or any(t in m for t in toks) for m in msgs)
             if fld == 'unknown' and not any("Unknown field" in m for m in msgs):
                 res['violations'].append(core.violation(f'unknown-field-not-reported/{fmt}', f'{fmt}: unknown field not reported:\n{doc}', case))
+            if any('already documented' in m for m in msgs):
+                continue        # a field given twice for a single slot: one text is shown, the other is reported
             if not warned or fld != 'unknown':
                 if not (warned and not elsewhere and fld in ('type',)):
                     res['violations'].append(core.violation(f'field-text-{"misplaced" if elsewhere else "lost"}/{fmt}/{fld}',
@@ -501,7 +503,7 @@ DESCS = ['{w}', '-1 {w} {w2}', ':{w}: or {w2}', '({w})', '{w}, {w2}; {w3}.', '"{
          '{w} {w2}:', '- {w}', '{w} -', "{w}'s {w2}"]
 EXACT_FIELDS = {
     'epytext': {'param': '@param a: {D}', 'return': '@return: {D}', 'raise': '@raise ValueError: {D}', 'keyword': '@keyword k: {D}', 'note': '@note: {D}',
-                'param-cont': '@param a: {w}\n    {D}'},
+                'param-cont': '@param a: {w}\n    {D}', 'see': '@see: {D}', 'author': '@author: {D}', 'warns': '@warns: {D}', 'yield': '@yield: {D}'},
     'restructuredtext': {'param': ':param a: {D}', 'return': ':return: {D}', 'raise': ':raise ValueError: {D}', 'keyword': ':keyword k: {D}', 'note': ':note: {D}',
                          'param-cont': ':param a: {w}\n    {D}',
                          'cons-colon': ':Parameters:\n    - `a`: {D}\n    - `kw`: {w}', 'cons-dash': ':Parameters:\n    - `a` - {D}\n    - `kw` - {w}',
@@ -509,11 +511,15 @@ EXACT_FIELDS = {
                          'cons-exceptions': ':Exceptions:\n    - `ValueError`: {D}', 'cons-keywords': ':Keywords:\n    - `k`: {D}',
                          'cons-deflist': ':Parameters:\n    `a` : int\n        {D}'},
     'google': {'param': 'Args:\n    a: {D}', 'return': 'Returns:\n    {D}', 'raise': 'Raises:\n    ValueError: {D}', 'keyword': 'Keyword Args:\n    k: {D}',
+               'see-named': 'See Also:\n    f: {D}', 'note': 'Note:\n    {D}', 'warns': 'Warns:\n    UserWarning: {D}', 'yield': 'Yields:\n    int: {D}',
                'param-typed': 'Args:\n    a (int): {D}', 'param-cont': 'Args:\n    a: {w}\n        {D}'},
     'numpy': {'param': 'Parameters\n----------\na\n    {D}', 'return': 'Returns\n-------\nint\n    {D}', 'raise': 'Raises\n------\nValueError\n    {D}',
+              'see-named': 'See Also\n--------\nf : {D}', 'see-named-cont': 'See Also\n--------\nf : {w}\n    {D}', 'note': 'Notes\n-----\n{D}',
+              'warns': 'Warns\n-----\nUserWarning\n    {D}', 'yield': 'Yields\n------\nint\n    {D}', 'return-freeform': 'Returns\n-------\n{D}',
               'keyword': 'Other Parameters\n----------------\nk\n    {D}', 'param-typed': 'Parameters\n----------\na : int\n    {D}', 'param-cont': 'Parameters\n----------\na\n    {w}\n    {D}'},
 }
-EXACT_HOME = {'param': ('Parameters', 'a'), 'param-cont': ('Parameters', 'a'), 'param-typed': ('Parameters', 'a'), 'return': ('Returns', None), 'raise': ('Raises', 'ValueError'),
+EXACT_HOME = {'see-named': None, 'see-named-cont': None, 'see': ('See Also', None), 'author': ('Author', None), 'warns': ('Warns', None), 'yield': ('Yields', None), 'return-freeform': ('Returns', None),
+              'param': ('Parameters', 'a'), 'param-cont': ('Parameters', 'a'), 'param-typed': ('Parameters', 'a'), 'return': ('Returns', None), 'raise': ('Raises', 'ValueError'),
               'keyword': ('Parameters', 'k'), 'note': ('Note', None), 'cons-colon': ('Parameters', 'a'), 'cons-dash': ('Parameters', 'a'), 'cons-spacecolon': ('Parameters', 'a'),
               'cons-second': ('Parameters', 'a'), 'cons-exceptions': ('Raises', 'ValueError'), 'cons-keywords': ('Parameters', 'k'), 'cons-deflist': ('Parameters', 'a')}
 
@@ -536,17 +542,27 @@ def judge_exact_field(s: Any, fmt: str, fld: str, di: int, res: Dict[str, Any]) 
     case = {'kind': 'exact-field', 'fmt': fmt, 'fld': fld, 'desc': di}
     install(s, f, doc)
     h = flatten(epydoc2stan.format_docstring(f))
-    msgs = [m for sec, m, th in s.messages if th < 0]
+    msgs = [m for sec, m, th in s.messages if th < 0 and 'Cannot find link target' not in m]      # a dangling link is no report about lost text
     res['outcomes'].add((fmt, 'exact-field', bool(msgs)))
     words = re.findall(r'w\d{4}', doc)
     shown_all = strip_tags(h)
     lost = [t for t in words if t not in shown_all]
     if lost:
-        res['violations'].append(core.violation(f'field-words-lost/{fmt}/{fld}/d{di}', f'{fmt}: {lost} not shown; reported {msgs[:2]}\n{doc}', case))
+        if not msgs:       # lost AND nothing reported (a reported problem is the statement's escape clause)
+            res['violations'].append(core.violation(f'field-words-lost/{fmt}/{fld}/d{di}', f'{fmt}: {lost} not shown and nothing reported\n{doc}', case))
         return
     if msgs:
         return      # the host markup gives the description another meaning and says so
     _, _, table = h.partition('<table class="fieldTable">')
+    if EXACT_HOME.get(fld, ('x', None)) is None or (fmt in ('google', 'numpy') and fld in ('note',)):
+        # sections the napoleon formats render in the description itself: the exact text must be part of the visible text
+        want = norm(desc)
+        if fld.endswith('-cont'):
+            want = norm(re.findall(r'w\d{4}', text)[0] + ' ' + desc)
+        if desc.startswith('- ') or want in norm(shown_all):
+            return
+        res['violations'].append(core.violation(f'field-text-not-exact/{fmt}/{fld}/d{di}', f'{fmt}: section {fld} text {want!r} not in the visible text {norm(shown_all)!r}\n{doc}', case))
+        return
     heading, arg = EXACT_HOME[fld]
     rows = [r for hd, rows_ in table_sections(table) if hd == heading for r in rows_]
     if arg:
@@ -557,7 +573,7 @@ def judge_exact_field(s: Any, fmt: str, fld: str, di: int, res: Dict[str, Any]) 
         want = norm(re.findall(r'w\d{4}', text)[0] + ' ' + desc)
     # the description is itself block markup of the host (a bullet list), or 'type: description' in a napoleon Returns / Raises section:
     # its punctuation is markup by the grammar of the format, only the words are compared (all of them are on the page, checked above)
-    if desc.startswith('- ') or (fmt in ('google', 'numpy') and fld in ('return', 'raise') and ':' in desc):
+    if desc.startswith('- ') or (fmt in ('google', 'numpy') and fld in ('return', 'raise', 'warns', 'yield') and ':' in desc) or fld == 'return-freeform':      # (a lone line in a numpy Returns section is a type)
         return
     if want not in cells:
         res['violations'].append(core.violation(f'field-text-not-exact/{fmt}/{fld}/d{di}', f'{fmt}: field {fld} description {want!r} shown as {cells!r}\n{doc}', case))
@@ -684,10 +700,14 @@ def usable(fmt: str, c: str) -> bool:
     return not (fmt == 'epytext' and c in RST_ONLY)
 
 
+REPEATABLE = ('note', 'see', 'author', 'since', 'raise', 'raise2', 'warns', 'unknown', 'param-kw', 'keyword', 'return', 'rtype', 'yield', 'param', 'type', 'returns-syn')
+
+
 def field_sets(fmt: str, mode: str) -> List[Tuple[str, ...]]:
     names = list(NAP_FIELDS[fmt]) if fmt in NAP_FIELDS else list(FIELDS_E)
     if mode == 'single':
-        return [()] + [(f,) for f in names]
+        # every single field, and every repeatable field given twice and three times (each occurrence with its own words)
+        return [()] + [(f,) for f in names] + [(f, f) for f in names if f in REPEATABLE] + [(f, f, f) for f in names if f in ('note', 'see', 'author')]
     return [(a, b) for a in names for b in names if a != b and FIELD_HOME[a] != FIELD_HOME[b]]
 
 
